@@ -1,5 +1,7 @@
 """C16 - the mesh master leases each logical address to at most one node ID. DESIGN §4/C16."""
 import itertools
+import json
+import shutil
 import os
 import random
 import struct
@@ -21,7 +23,7 @@ RULE = ("a real RF24Mesh master on a simulated radio; address requests injected 
         "first hop towards the requester really listens on (listening addresses learnt from real "
         "nodes). save_dhcp()/load_dhcp() round trips for every table size 0..255 in both formats. "
         "Non-trivial: >=1 lease granted or refused; distinct = distinct event histories.")
-RULE += (" Later rounds added: non-request frames and requests arriving while the master transmits, an exact release oracle, persistence after the saved table changed (same and new file).")
+RULE += (" Later rounds added: non-request frames and requests arriving while the master transmits, an exact release oracle, persistence after the saved table changed (same and new file), ID look-ups of leased addresses, a JSON table loaded mid-history that hands a leased address to another ID, the displaced ID asking again.")
 REQUIRED = {"table_injective": 20000, "reply_checks": 5000, "release_reassign": 40,
             "persistence_roundtrip": 150, "persistence_after_changes": 500}
 BUDGET = {"quick": 480, "thorough": 900}
@@ -99,6 +101,38 @@ def gen_cases(ctx):
             else:
                 ev.append(["set", rng.randrange(1, 256), rng.choice([0o15, 0o25, 0o35, 0o45, 0o55])])
         yield {"part": "seq", "events": ev, "seed": w}
+    # tables changed behind the allocator's back (a JSON table loaded mid-history hands a leased
+    # address to another ID) with look-ups of either kind before it and the displaced ID asking again
+    for via in (0o4444, 0o2, 0o32, 0o3):
+        for pre in ([], [["id_lookup", 0o1, 0]], [["id_lookup", 0o3, 1]], [["lookup_frame", 0o1, 7]],
+                    [["id_lookup", 0o1, 0], ["id_lookup", 0o1, 1]], [["id_lookup", 0o1, 1], ["id_lookup", 0o1, 0]]):
+            for k in (0, 1):
+                for tail in ([["rereq", 0]], [["rereq", 0], ["rereq", 1]], [["req", 8, via], ["rereq", 0]],
+                             [["req", 9, via], ["rereq", 0]]):
+                    yield {"part": "seq", "events": [["req", 7, via], ["req", 8, via]] + pre
+                           + [["load_json", 9, k]] + tail}
+    rng2 = ctx.sub_rng("c16b")
+    for w in range(150 if ctx.tier == "quick" else 6000):
+        ev = []
+        ids = rng2.sample(range(1, 256), 6)
+        vias = rng2.sample([0o4444, 0o1, 0o3, 0o23, 0o123, 0o5, 0o2], 3)
+        for _ in range(40):
+            r = rng2.random()
+            if r < 0.4:
+                ev.append(["req", rng2.choice(ids), rng2.choice(vias)])
+            elif r < 0.5:
+                ev.append(["rel", rng2.choice(ids)])
+            elif r < 0.65:
+                ev.append(["id_lookup", rng2.choice([0o1, 0o3, 0o23]), rng2.randrange(8)])
+            elif r < 0.7:
+                ev.append(["lookup_frame", rng2.choice([0o1, 0o3]), rng2.choice(ids)])
+            elif r < 0.82:
+                ev.append(["load_json", rng2.choice(ids), rng2.randrange(8)])
+            elif r < 0.95:
+                ev.append(["rereq", rng2.randrange(3)])
+            else:
+                ev.append(["rel_addr", rng2.choice([0o1, 0o2, 0o13, 0o23, 0o5])])
+        yield {"part": "seq", "events": ev, "seed": 5000 + w}
     # a parent is filled, one lease released, a new ID asks: the released address is available
     for via in (0o4444, 0o1, 0o2, 0o5, 0o32, 0o14, 0o55, 0o132, 0o315, 0o444):
         for k in range(5):
@@ -154,6 +188,38 @@ def one_event(ctx, case, rig, radio, master, ref, ev, hist, fid):
             # a connected node asks for an ID's address: never a lease event
             radio.inject_rx(4, net_ref.pack_header(ev[1], 0, fid, 196, ev[2] & 0xFF) + bytes([ev[2] & 0xFF]))
             master.update()
+        elif ev[0] == "id_lookup":
+            # a connected node asks which ID holds the k-th leased address: never a lease event
+            held = sorted(before.values())
+            if not held:
+                return True
+            radio.inject_rx(4, net_ref.pack_header(ev[1], 0, fid, 198, 0) + struct.pack("<H", held[ev[2] % len(held)]))
+            master.update()
+            ctx.count("id_lookups_of_held_addresses")
+        elif ev[0] == "load_json":
+            # the operator loads a JSON table in which the k-th leased address belongs to another ID
+            held = sorted(before.values())
+            if not held:
+                return True
+            d = tempfile.mkdtemp(prefix="c16_", dir="/dev/shm")
+            try:
+                fn = os.path.join(d, "t.json")
+                with open(fn, "w") as f:
+                    json.dump({str(ev[1]): held[ev[2] % len(held)]}, f)
+                master.load_dhcp(fn)
+            finally:
+                shutil.rmtree(d, ignore_errors=True)
+            ctx.count("json_tables_loaded_mid_history")
+        elif ev[0] == "rereq":
+            # an ID that asked before and holds nothing now asks again, the way it did last time
+            past = [e for e in hist[:-1] if e[0] == "req" and e[1] not in before]
+            if not past:
+                return True
+            ev = ["req", past[-1 - ev[1] % len(past)][1], past[-1 - ev[1] % len(past)][2]]
+            hist[-1] = ev
+            radio.inject_rx(0 if ev[2] == 0o4444 else 2, request_frame(ev[1], ev[2], fid))
+            master.update()
+            ctx.count("displaced_ids_asking_again")
         elif ev[0] == "data_frame":
             radio.inject_rx(2, net_ref.pack_header(ev[1], 0, fid, 5, ev[2] & 0xFF) + b"user data")
             master.update()
@@ -189,7 +255,7 @@ def one_event(ctx, case, rig, radio, master, ref, ev, hist, fid):
                           "(history %r)" % (ev, inv[v], k, oct(v), hist[-8:]), case)
             return False
         inv[v] = k
-    if ev[0] in ("rel", "lookup_frame", "data_frame"):
+    if ev[0] in ("rel", "lookup_frame", "data_frame", "id_lookup"):
         # exactly the released lease disappears / nothing changes; nobody is sent an address
         exp = dict(before)
         if ev[0] == "rel":
